@@ -1,6 +1,6 @@
 #!/bin/bash
 # seed_results_rounds.sh [parallel] [rounds]: run the seeded changes of the later rounds (default "r3 r4") against the check that
-# is expected to report each of them (quick tier, scratch copies via bin/try_patch.sh) and write seeded/RESULTS-rounds.md.
+# is expected to report each of them (quick tier, scratch copies via bin/try_patch.sh) and write seeded/RESULTS-<rounds>.md.
 # A seed whose own property's check does not see it by design is run against the check named in seeded/<ID>/caught_by.
 cd "$(dirname "$0")/.."
 export GOFLAGS=-mod=mod GOPROXY=off GOSUMDB=off GOTOOLCHAIN=local
@@ -29,5 +29,5 @@ echo
 echo "| seed | check run | exit | violation lines | first violation key |"
 echo "|---|---|---|---|---|"
 cat $W/*.row | sort
-} > seeded/RESULTS-rounds.md
+} > "seeded/RESULTS-$(echo $ROUNDS | tr " " "-").md"
 rm -rf $W
